@@ -177,6 +177,14 @@ def assign_alphabet(A, names):
         "r=@[sp+4]": {r: m.ExprMem(sp + m.ExprInt(4, 32), 32)},
         "r=@8[sp+6]": {r: m.ExprMem(sp + m.ExprInt(6, 32), 8).zeroExtend(32)},
         "r=@16[sp+6]": {r: m.ExprMem(sp + m.ExprInt(6, 32), 16).zeroExtend(32)},
+        # a definition CONTAINING a memory read (not a bare one), save / restore copies through another register
+        "r=@[sp+4]+1": {r: m.ExprMem(sp + m.ExprInt(4, 32), 32) + one},
+        "a=@[sp+4]+1": {a: m.ExprMem(sp + m.ExprInt(4, 32), 32) + one},
+        "r=zx@8[sp+5]": {r: m.ExprMem(sp + m.ExprInt(5, 32), 8).zeroExtend(32)},
+        "c=r": {c: r},
+        "r=c": {r: c},
+        "c=a": {c: a},
+        "@[sp+4]=0": {m.ExprMem(sp + m.ExprInt(4, 32), 32): m.ExprInt(0, 32)},
         "b=5": {b: m.ExprInt(5, 32)},
         "b=2": {b: m.ExprInt(2, 32)},
         "r=b+1": {r: b + one},
